@@ -549,6 +549,7 @@ type Contract struct {
 	// AssumesPre names callees ("CalculateSaleReturn", "(*Coins).SubVolume") whose preconditions are assumed, not proved, at
 	// the call sites inside this function (a state invariant the function relies on); every use is listed in the trusted base.
 	AssumesPre map[string]string
+	Alt        string // non-empty: an additional contract ("func F #alt"), verified but not used by callers
 }
 
 type LetDef struct {
@@ -705,6 +706,12 @@ func ParseContractText(pkg, file, text string) (*ContractFile, error) {
 		switch kw {
 		case "func":
 			cur = &Contract{FuncName: rest, Pkg: pkg, Loops: map[int]*LoopSpec{}, File: file, Line: ln, PanicsOK: map[string]bool{}}
+			// "func F #name": a second contract for F, proved against F's body but never used at call sites (callers keep
+			// the main contract). Used to prove a concrete, field-level statement about a function whose callers reason
+			// through an abstract view.
+			if i := strings.LastIndex(rest, " #"); i > 0 {
+				cur.FuncName, cur.Alt = strings.TrimSpace(rest[:i]), strings.TrimSpace(rest[i+2:])
+			}
 			curLemma = nil
 			cf.Contracts = append(cf.Contracts, cur)
 		case "lemma":
